@@ -31,4 +31,4 @@ Deliverables — write them into {wt}/_seed_out/ :
   - patch.diff : output of `git -C {wt} diff -- glm` (your change only, applies to the unmodified tree with `git apply`)
   - demo.cpp   : a small standalone program (compile with: g++ -std=gnu++17 -I<tree> demo.cpp -o demo ; add any -D/-m flags it needs in a comment on line 1) that exits 0 on the UNCHANGED library and exits non-zero (printing what went wrong) WITH your change
   - notes.md   : which clause of the property breaks, what exactly is needed for it to manifest, and the exact commands you ran (build, tests, demo with and without the change) with their results
-Verify all three claims yourself (tests pass with the change; demo fails with the change; demo passes on a clean checkout: `git -C {wt} stash` / `stash pop` or compile the demo against /repo read-only with -I/repo). Remove {wt}/_build when you are done to save disk. Report back in a few lines what you changed and whether everything was verified.""")
+Verify all three claims yourself (tests pass with the change; demo fails with the change; demo passes on a clean checkout: compile the demo against /repo read-only with -I/repo, or reverse your patch with `git -C {wt} apply -R` and re-apply it afterwards -- do NOT use `git stash`: the stash is shared by all worktrees of the repository and other people work in sibling worktrees). Remove {wt}/_build when you are done to save disk. Report back in a few lines what you changed and whether everything was verified.""")
